@@ -1215,7 +1215,38 @@ def r_endian(ctx):
             continue
         found += 1
         line = nd.lineno
-        run.check(rev % 2 == 1, 'R-ENDIAN', dec, 'horner:reverse-order', line,
+        # digits addressed by position (saved[-1 - i], saved[len(saved) - 1 - i], saved[i]) instead of by iteration
+        by_index = None
+        e0 = adds[-1]
+        b0 = call_arg(e0.term, 1, 'base')
+        if b0 is not None:
+            for x in walk_term(b0):
+                if x[0] == 'sub' and x[1][0] == 'v' and any(y[0] in ('iter', 'idx') and y[-1] == nd.id for y in walk_term(x[2])):
+                    from .repair import affine as _aff
+                    lv = [y for y in walk_term(x[2]) if y[0] in ('iter', 'idx') and y[-1] == nd.id][0]
+                    ia = _aff(x[2])
+                    asc = None
+                    if lv[0] == 'idx':
+                        asc = True
+                    elif is_call(lv[1], 'builtins.range'):
+                        ra = lv[1][2]
+                        asc = True if len(ra) < 3 else (None if ra[2][0] != 'c' else ra[2][1] > 0)
+                    if ia is not None and lv in ia and asc is not None:
+                        coef = ia[lv]
+                        by_index = ('reverse' if (coef < 0) == asc else 'forward') if coef != 0 else None
+                    else:
+                        by_index = 'unknown'
+        if by_index == 'reverse':
+            run.ok('R-ENDIAN', dec, 'horner:reverse-order', line, 'saved digits addressed from the end towards the start')
+            rev = 1
+        elif by_index == 'unknown':
+            run.undecided('R-ENDIAN', dec, 'horner:reverse-order', line, 'the saved digits are addressed by an index expression that is '
+                          'not an affine form of the loop variable')
+            continue
+        elif by_index == 'forward':
+            rev = 0
+        if by_index != 'reverse':
+          run.check(rev % 2 == 1, 'R-ENDIAN', dec, 'horner:reverse-order', line,
                   'saved digits traversed in reverse (%d reversal)' % rev,
                   "the Horner loop traverses the saved digits %s; the encoder emits the least significant digit "
                   "first, so they must be traversed in reverse exactly once" % ('forward' if rev == 0 else
@@ -1241,8 +1272,10 @@ def r_endian(ctx):
                 while x[0] == 'item' or (x[0] == 'sub' and x[2][0] == 'c' and isinstance(x[2][1], int)):
                     want_items.append(x[2] if x[0] == 'item' else x[2][1])
                     x = x[1]
-                return x[0] == 'iter' and want_items and want_items[0] == i or \
-                    (x[0] == 'iter' and want_items[-1:] == [i])
+                elem = x[0] == 'iter' or (x[0] == 'sub' and x[1][0] == 'v' and
+                                          any(y[0] in ('iter', 'idx') and y[-1] == nd.id for y in walk_term(x[2])))
+                return elem and want_items and want_items[0] == i or \
+                    (elem and want_items[-1:] == [i])
             radix_ok = comp(mbase, 0)
             digit_ok = comp(base, 1)
             if parallel is not None:
@@ -1391,6 +1424,32 @@ def r_ahead(ctx):
                             if lo[0] == 'bin' and lo[1] == '+' and lo[2] == cur and lo[3][0] == 'c' and \
                                     lo[3][1] >= (c if strict else c + 1) and any(hi == L for L in length_terms):
                                 guarded = True
+                        if not guarded:
+                            # any equivalent way of writing the bound (i < n - c, i + c + 1 <= n, n > i + c, not n <= i + c ...):
+                            # the path conditions that speak about the cursor and the length are evaluated on a grid of
+                            # (cursor, length); the access is guarded iff they never hold together with cursor + c >= length
+                            rel = [(a_, p_) for a_, p_ in ctx.conds(f, nd)
+                                   if any(x == cur for x in walk_term(a_)) and any(x in length_terms for x in walk_term(a_))]
+                            verdict = None
+                            if rel:
+                                verdict = True
+                                for iv in range(0, 9):
+                                    for Lv in range(0, 9):
+                                        vals = [feval(a_, lambda x, iv=iv, Lv=Lv: iv if x == cur else (Lv if x in length_terms else UNKNOWN))
+                                                for a_, p_ in rel]
+                                        if any(v is UNKNOWN for v in vals):
+                                            verdict = None
+                                            break
+                                        if all(bool(v) == p_ for v, (a_, p_) in zip(vals, rel)) and iv + c >= Lv:
+                                            verdict = False
+                                    if verdict is None:
+                                        break
+                            if verdict is True:
+                                guarded = True
+                            elif verdict is None and rel:
+                                run.undecided('R-AHEAD', f, 'fast:bits[cursor+%d]' % c, nd.lineno,
+                                              'the conditions on the cursor %s are not evaluable' % [show(a_)[:40] for a_, p_ in rel][:2])
+                                continue
                         run.check(guarded, 'R-AHEAD', f, 'fast:bits[cursor+%d]' % c, nd.lineno,
                                   'look-ahead guarded by a bound on the cursor',
                                   "%s is accessed without a path condition cursor + %d < length: IndexError when the message "
